@@ -708,10 +708,8 @@ func (g *Graph) injectContextArg(injector *Injector, metaData *MetaData, varPool
 		// Use the Param from the argument directly, not from Params slice
 		existingContextArg.Param.Ref(false)
 
-		// Mark context import as used
-		if imp, exists := metaData.Imports[contextPkgPath]; exists {
-			imp.IsUsed = true
-		}
+		// The imports of the argument's own type (context, or the package of an alias of
+		// context.Context) are marked used when the signature is written.
 
 		return nil
 	}
